@@ -296,7 +296,6 @@ fn c02_select_full_n2() {
     let mut a = Array1::from(vals.to_vec());
     let r = a.get_from_sorted_mut(i);
     assert!(rank_ok(&vals, 2, &r, i), "result is the element a full sort places at i");
-    assert!(a[0] <= a[1] || i == 0 && a[0] >= r || true);
     let w: u8 = kani::any();
     let mut c1 = 0usize;
     for e in a.iter() {
